@@ -262,6 +262,17 @@ def value_passthrough(chk: Check, rule: str) -> None:
                "%s.encode rebinds its value argument (%s) before writing it: some values are no "
                "longer written as themselves (the decoder cannot give them back bit for bit)"
                % (c.qualname, unparse(rebinds[0])[:60] if rebinds else ""), 1)
+        # ... nor converted on the way: str(v), int(v), bytes(v), float(v), repr(v), format(v)
+        conv = [x for x in walk_no_nested(f.node) if isinstance(x, ast.Call) and isinstance(x.func, ast.Name)
+                and x.func.id in ("str", "int", "float", "bytes", "bytearray", "repr", "format", "bool", "abs", "round")
+                and len(x.args) >= 1 and isinstance(x.args[0], ast.Name) and _is_val(x.args[0].id)
+                and not any(id(x) == id(y) for r_ in walk_no_nested(f.node) if isinstance(r_, ast.Raise) for y in ast.walk(r_))]
+        # (bytes([val]) / bool(val) for the one-byte bool are the pinned spellings of packing)
+        conv = [x for x in conv if not (x.func.id in ("bool", "int") and c.name == "BoolCodec")]
+        chk.ob(rule, "%s.encode:value-unconverted" % c.qualname, not conv, f.loc(conv[0]) if conv else f.loc(),
+               "%s.encode converts its value argument (%s) before writing it: a value whose conversion differs "
+               "from itself (a subclass overriding __str__/__int__, a look-alike type) is written as something else"
+               % (c.qualname, unparse(conv[0])[:40] if conv else ""), 1)
     chk.extra["codec_encoders"] = n
 
 
